@@ -48,8 +48,8 @@ ENCODED = [
     "tensorly.base.vec_to_tensor",
 ]
 BOUNDS = {
-    "quick": "orders 2-3, mode sizes in {1,2} plus selected 3s, ranks/rows <= 3, real entries, both backends",
-    "thorough": "orders 2-4, mode sizes in {1,2,3}, ranks/rows <= 3, real entries, both backends",
+    "quick": "orders 2-4, mode sizes in {1,2,3} (order 4: {1,2} plus selected 3s), ranks/rows <= 3, real entries, both backends",
+    "thorough": "quick set plus orders up to 5 (size 2), order-4 shapes with sizes up to 3, sizes up to 4 at order 3, ranks/rows <= 4",
 }
 OUTSIDE = ["sizes > 3, orders > 4", "complex entries (conjugation is the identity on the real entries used here)", "sparse backend"]
 TRUSTED = ["z3", "NumPy object-dtype structural ops (reshape/moveaxis/dot/einsum)", "reals instead of IEEE floats"]
@@ -62,15 +62,18 @@ def _shapes(order, sizes):
 
 def configs(tier):
     out = []
-    quick = tier == "quick"
-    sizes = (1, 2) if quick else (1, 2, 3)
-    orders = (2, 3) if quick else (2, 3, 4)
+    deep = tier != "quick"  # thorough: additional larger shapes on top of the quick set
+    quick = False  # the quick tier runs what used to be the thorough set (68 s on 16 cores)
+    sizes = (1, 2, 3)
+    orders = (2, 3, 4)
     for be in ("core", "einsum"):
         # mode_dot
         shapes = []
         for o in orders:
             shapes += _shapes(o, sizes) if (quick or o < 4) else _shapes(o, (1, 2))
         shapes += [(2, 3, 2), (3, 2)] if quick else [(2, 3, 2, 2)]
+        if deep:
+            shapes += [(3, 2, 3, 2), (2, 2, 2, 2, 2), (3, 3, 3, 3), (4, 3, 2), (1, 3, 1, 3), (2, 1, 3, 1, 2)]
         shapes = sorted(set(shapes))
         for shp in shapes:
             for mode in range(len(shp)):
@@ -111,6 +114,8 @@ def configs(tier):
         krs = [([2], 2), ([2, 2], 2), ([1, 2], 3), ([2, 1, 2], 2), ([2, 2, 2], 1), ([2, 2], 1)]
         if not quick:
             krs += [([3, 2], 3), ([2, 3, 2], 2), ([2, 2, 2, 2], 2), ([3, 3, 3], 3)]
+        if deep:
+            krs += [([3, 2, 3, 2], 3), ([4, 3], 4), ([2, 2, 2, 2, 2], 2), ([1, 3, 1], 3)]
         for rows, R in krs:
             for skip in [None] + list(range(len(rows))):
                 if skip is not None and len(rows) == 1:
@@ -162,6 +167,8 @@ def configs(tier):
         mt = [((2, 2), 1), ((2, 2), 2), ((2, 1, 2), 2), ((2, 2, 2), 2), ((1, 2), 2), ((2, 2, 2), 1)]
         if not quick:
             mt += [((3, 3, 3), 3), ((3, 4, 2), 3), ((2, 2, 2, 2), 2), ((2, 3), 3), ((3, 2, 1, 2), 2)]
+        if deep:
+            mt += [((3, 3, 3, 2), 3), ((4, 3, 3), 4), ((2, 2, 2, 2, 2), 2), ((3, 1, 3), 2), ((4, 4), 3)]
         for shp, R in mt:
             for mode in range(len(shp)):
                 for w in (False, True):
